@@ -428,6 +428,10 @@ fn run_inner<K: KeyLike>(case: &Case, prop: Prop, keep_trace: bool, keys: &[u16]
                     return Err(vio(prop, i, kind, op, class, first_msg));
                 }
                 if prop == Prop::C14 && kind.has_iters() {
+                    // an iterator step has its own, more precise report
+                    if matches!(op, Op::Iter { .. }) {
+                        c14_check(kind, op, i, &out, &view_before, &view)?;
+                    }
                     // the iterators are documented to run in recency order: C14's own oracle ties
                     // them to the list as linked, this ties the list to the recency order the
                     // policy defines (same reference models as C06 / C08 / C09)
@@ -453,8 +457,8 @@ fn run_inner<K: KeyLike>(case: &Case, prop: Prop, keep_trace: bool, keys: &[u16]
             Prop::C06 => {
                 if kind.is_lru() {
                     // public iteration order must be the recency order (and iter_lru its reverse)
-                    let fwd = sut.apply(&Op::Iter { list: 0, fam: 0, pat: vec![true; view.lists[0].len()], clone_at: 255, write: false }, i);
-                    let bwd = sut.apply(&Op::Iter { list: 0, fam: 1, pat: vec![true; view.lists[0].len()], clone_at: 255, write: false }, i);
+                    let fwd = sut.apply(&Op::Iter { list: 0, fam: 0, pat: vec![true; view.lists[0].len()], clone_at: 255, write: false, fin: 0 }, i);
+                    let bwd = sut.apply(&Op::Iter { list: 0, fam: 1, pat: vec![true; view.lists[0].len()], clone_at: 255, write: false, fin: 0 }, i);
                     let items = |o: &Out| -> Vec<(u16, u32)> {
                         match o {
                             Out::Iter(io) => io.evs.iter().filter_map(|e| e.item.map(|(k, v)| (k as u16, v as u32))).collect(),
@@ -1066,10 +1070,10 @@ fn c12_check<K: KeyLike>(sut: &Sut<K>, kind: Kind, op: &Op, i: usize, out: &Out,
 
 fn c14_check(kind: Kind, op: &Op, i: usize, out: &Out, before: &View, after: &View) -> Result<(), Violation> {
     let p = Prop::C14;
-    if let (Op::Iter { list, fam, pat, clone_at, write }, Out::Iter(got)) = (op, out) {
+    if let (Op::Iter { list, fam, pat, clone_at, write, fin }, Out::Iter(got)) = (op, out) {
         let li = *list as usize;
         let mut l = before.lists[li].clone();
-        let exp = expected_iter(&mut l, *fam, pat, *clone_at, *write, i);
+        let exp = expected_iter(&mut l, *fam, pat, *clone_at, *write, i, *fin);
         if &exp != got {
             return Err(vio(
                 p,
@@ -1077,7 +1081,7 @@ fn c14_check(kind: Kind, op: &Op, i: usize, out: &Out, before: &View, after: &Vi
                 kind,
                 op,
                 &format!("walk-{}", FAMILIES[*fam as usize]),
-                format!("step {i}: {}() over {:?} with pattern {:?} (true=next, false=next_back): got {:?}, expected {:?}", FAMILIES[*fam as usize], before.lists[li], pat, got, exp),
+                format!("step {i}: {}() over {:?} with pattern {:?} (true=next, false=next_back), then consumption path {} (arg {}): got {:?}, expected {:?}", FAMILIES[*fam as usize], before.lists[li], pat, FIN_NAMES[(*fin % N_FIN) as usize], *fin / N_FIN, got, exp),
             ));
         }
         for (j, lj) in after.lists.iter().enumerate() {
@@ -1105,7 +1109,9 @@ fn c14_sweep<K: KeyLike>(sut: &mut Sut<K>, kind: Kind, i: usize, view: &View, st
                 let pat: Vec<bool> = (0..plen).map(|b| bits >> b & 1 == 1).collect();
                 let ca = if fam_is_mut(fam) { 255 } else { (bits as usize % (plen + 2)) as u8 };
                 let write = fam_is_mut(fam) && bits % 3 == 0;
-                let op = Op::Iter { list: li as u8, fam, pat, clone_at: ca, write };
+                // the std consumption path rotates with the pattern (all 13 x several arguments per list)
+                let fin = ((bits as usize * 7 + fam as usize * 3 + li) % 256) as u8;
+                let op = Op::Iter { list: li as u8, fam, pat, clone_at: ca, write, fin };
                 let out = sut.apply(&op, i);
                 let after = sut.view();
                 if n >= 2 && bits != 0 && bits != (1 << plen) - 1 {
